@@ -1429,6 +1429,13 @@ pub fn gen(ctx: &Ctx, emit: &mut dyn FnMut(String)) {
             emit(format!("c01 convert - le {line}"));
         }
     }
+    // deeply nested DW_OP_entry_value: reading is flat, conversion used to recurse without bound
+    for depth in [1usize, 2, 63, 64, 65, 66, 200, 1000, 20000] {
+        let s = crate::prop::c12::assembled_expr_unit(&crate::prop::c12::nested_entry_value(depth));
+        let line = s.iter().filter(|(_, d)| !d.is_empty()).map(|(n, d)| format!("{n}={}", hex(d))).collect::<Vec<_>>().join(";");
+        emit(format!("c01 dwarf - le {line}"));
+        emit(format!("c01 convert - le {line}"));
+    }
     // conversion of every short line program over set_address (valid, lower, tombstone) /
     // advance / row / end_sequence: partially tombstoned sequences used to trip an assertion
     {
